@@ -3,6 +3,7 @@
     C13 (queries do not write the world), C20 (debug build panics on the same calls). To be filled. *)
 From Ark Require Import Model.Base Model.Mask Model.Pool Model.Util Model.World Model.Run.
 From Ark Require Import Proofs.MaskProofs Proofs.ObsDoc Proofs.TableProofs Proofs.WF Proofs.StorageA Proofs.LockWorld Proofs.Hoare.
+From Ark Require Properties.Common.
 From RecordUpdate Require Import RecordSet.
 Import RecordSetNotations.
 From Coq Require Import Lia.
@@ -254,8 +255,92 @@ Lemma q_eat_go_cons : forall index tid len rest count, q_eat_go index ((tid, len
   else q_eat_go index rest (count + len).
 Proof. reflexivity. Qed.
 
+(** The lazy walk of EntityAt: the table loop [entity_at_tables] and the archetype loop as a
+    top-level fixpoint. *)
+Lemma q_eat_tables_nil : forall index rels ne count, entity_at_tables index rels ne [] count = ret (inr count).
+Proof. reflexivity. Qed.
+Lemma q_eat_tables_cons : forall index rels ne tid rest count, entity_at_tables index rels ne (tid :: rest) count =
+  (t <- getT tid ;;
+   if (ne && Nat.eqb (t_len t) 0)%bool then entity_at_tables index rels ne rest count
+   else
+     mt <- of_opt (tbl_matches t rels) ENil ;;
+     if negb mt then entity_at_tables index rels ne rest count
+     else if Nat.ltb index (count + t_len t) then
+       e <- of_opt (nth_error (t_ents t) (index - count)) EIndex ;; ret (inl e)
+     else entity_at_tables index rels ne rest (count + t_len t)).
+Proof. reflexivity. Qed.
+
+Definition q_eatl_go (index : nat) (f : fobj) (q : qobj) : list nat -> nat -> MW ent :=
+  fix go (l : list nat) (count : nat) : MW ent :=
+  match l with
+  | [] => fail EIndex
+  | aid :: rest =>
+      a <- getA aid ;;
+      if negb (filter_matches f (a_mask a)) then go rest count
+      else if negb (arch_has_rels a) then
+        match a_tables a with
+        | t0 :: _ =>
+            t <- getT t0 ;;
+            if Nat.ltb index (count + t_len t) then of_opt (nth_error (t_ents t) (index - count)) EIndex
+            else go rest (count + t_len t)
+        | [] => fail EIndex
+        end
+      else
+        cand <- of_opt (arch_get_tables a (q_rels q)) EIndex ;;
+        r <- entity_at_tables index (q_rels q) false cand count ;;
+        match r with inl x => ret x | inr c => go rest c end
+  end.
+Lemma q_eatl_go_nil : forall index f q count, q_eatl_go index f q [] count = fail EIndex.
+Proof. reflexivity. Qed.
+Lemma q_eatl_go_cons : forall index f q aid rest count, q_eatl_go index f q (aid :: rest) count =
+  (a <- getA aid ;;
+   if negb (filter_matches f (a_mask a)) then q_eatl_go index f q rest count
+   else if negb (arch_has_rels a) then
+     match a_tables a with
+     | t0 :: _ =>
+         t <- getT t0 ;;
+         if Nat.ltb index (count + t_len t) then of_opt (nth_error (t_ents t) (index - count)) EIndex
+         else q_eatl_go index f q rest (count + t_len t)
+     | [] => fail EIndex
+     end
+   else
+     cand <- of_opt (arch_get_tables a (q_rels q)) EIndex ;;
+     r <- entity_at_tables index (q_rels q) false cand count ;;
+     match r with inl x => ret x | inr c => q_eatl_go index f q rest c end).
+Proof. reflexivity. Qed.
+
 Lemma q_entity_at_eq : forall qi index,
-  query_entity_at qi index = (w <- query_walk qi ;; q_eat_go index w 0).
+  query_entity_at qi index =
+  (q <- getQ qi ;;
+   s <- get ;;
+   match q_cache q with
+   | Some addr =>
+       e <- of_opt (nth_error (w_cheap s) addr) EIndex ;;
+       r <- entity_at_tables index (q_rels q) true (ce_tables e) 0 ;;
+       match r with inl x => ret x | inr _ => fail EIndex end
+   | None =>
+       f <- getF (q_filter q) ;;
+       q_eatl_go index f q (query_archetypes s q) 0
+   end).
+Proof. reflexivity. Qed.
+
+(** The eager form "index into a complete walk" cut at the end of a prefix of the walk:
+    [inl e] = found in the prefix, [inr count] = the running count after it. *)
+Definition q_eat_part (index : nat) : list (nat * nat) -> nat -> MW (ent + nat) :=
+  fix go (l : list (nat * nat)) (count : nat) : MW (ent + nat) :=
+  match l with
+  | [] => ret (inr count)
+  | (tid, len) :: rest =>
+      if Nat.ltb index (count + len) then
+        t <- getT tid ;; e <- of_opt (nth_error (t_ents t) (index - count)) EIndex ;; ret (inl e)
+      else go rest (count + len)
+  end.
+Lemma q_eat_part_nil : forall index count, q_eat_part index [] count = ret (inr count).
+Proof. reflexivity. Qed.
+Lemma q_eat_part_cons : forall index tid len rest count, q_eat_part index ((tid, len) :: rest) count =
+  if Nat.ltb index (count + len) then
+    t <- getT tid ;; e <- of_opt (nth_error (t_ents t) (index - count)) EIndex ;; ret (inl e)
+  else q_eat_part index rest (count + len).
 Proof. reflexivity. Qed.
 
 (** *** Frame framework: computations that only change [w_queries] and [w_lock] *)
@@ -409,6 +494,31 @@ Qed.
 Theorem query_close_frame : forall qi s, query_frame s (state_of (query_close qi s)).
 Proof. intros qi. apply q_fr_close. Qed.
 
+(** *** Monadic inversion helpers *)
+Lemma q_getQ_eq : forall s qi q, nth_error (w_queries s) qi = Some q -> getQ qi s = Ok q s.
+Proof. intros s qi q H. unfold getQ, bind, get, of_opt. rewrite H. reflexivity. Qed.
+Lemma q_bind_ret : forall A B (a : A) (k : A -> MW B) s, bind (ret a) k s = k a s.
+Proof. reflexivity. Qed.
+Lemma q_bind_get : forall B (k : W -> MW B) s, bind get k s = k s s.
+Proof. reflexivity. Qed.
+Lemma q_bind_fail : forall A B e (k : A -> MW B) s, bind (fail e) k s = Err e s.
+Proof. reflexivity. Qed.
+Lemma q_bind_inv : forall A B (m : MW A) (k : A -> MW B) s b s',
+  bind m k s = Ok b s' -> exists a s1, m s = Ok a s1 /\ k a s1 = Ok b s'.
+Proof. intros A B m k s b s' H. unfold bind in H. destruct (m s) as [a s1|]; [eauto | discriminate]. Qed.
+Lemma q_getA_inv : forall i s a s1, getA i s = Ok a s1 -> s1 = s /\ nth_error (w_archs s) i = Some a.
+Proof. intros i s a s1 H. unfold getA, bind, get, of_opt in H. destruct (nth_error (w_archs s) i); inversion H; auto. Qed.
+Lemma q_getT_inv : forall i s a s1, getT i s = Ok a s1 -> s1 = s /\ nth_error (w_tables s) i = Some a.
+Proof. intros i s a s1 H. unfold getT, bind, get, of_opt in H. destruct (nth_error (w_tables s) i); inversion H; auto. Qed.
+Lemma q_getF_inv : forall i s a s1, getF i s = Ok a s1 -> s1 = s /\ nth_error (w_filters s) i = Some a.
+Proof. intros i s a s1 H. unfold getF, bind, get, of_opt in H. destruct (nth_error (w_filters s) i); inversion H; auto. Qed.
+Lemma q_getQ_inv : forall i s a s1, getQ i s = Ok a s1 -> s1 = s /\ nth_error (w_queries s) i = Some a.
+Proof. intros i s a s1 H. unfold getQ, bind, get, of_opt in H. destruct (nth_error (w_queries s) i); inversion H; auto. Qed.
+Lemma q_of_opt_inv : forall A (o : option A) e (s : W) a s1, of_opt o e s = Ok a s1 -> s1 = s /\ o = Some a.
+Proof. intros A o e s a s1 H. destruct o; inversion H; auto. Qed.
+Lemma q_getF_eq : forall s i f, nth_error (w_filters s) i = Some f -> getF i s = Ok f s.
+Proof. intros s i f H. unfold getF, bind, get, of_opt. rewrite H. reflexivity. Qed.
+
 (** *** Count / EntityAt / Entity are read-only *)
 Lemma q_ro_tm_go : forall s rels ne l acc, state_of (q_tm_go s rels ne l acc) = s.
 Proof.
@@ -458,10 +568,46 @@ Proof.
   intros qi. change (readonly (query_count qi)). unfold query_count.
   apply readonly_bind; [apply q_ro_walk | intros w; apply readonly_ret].
 Qed.
+Lemma q_ro_eat_part : forall index l count, readonly (q_eat_part index l count).
+Proof.
+  intros index l. induction l as [|[tid len] rest IH]; intros count; [apply readonly_ret | rewrite q_eat_part_cons].
+  destruct (Nat.ltb _ _); [|apply IH].
+  apply readonly_bind; [apply readonly_getT | intros t].
+  apply readonly_bind; [apply readonly_of_opt | intros e; apply readonly_ret].
+Qed.
+Lemma q_ro_eat_tables : forall index rels ne l count, readonly (entity_at_tables index rels ne l count).
+Proof.
+  intros index rels ne l. induction l as [|tid rest IH]; intros count; [apply readonly_ret | rewrite q_eat_tables_cons].
+  apply readonly_bind; [apply readonly_getT | intros t].
+  destruct (ne && Nat.eqb (t_len t) 0)%bool; [apply IH|].
+  apply readonly_bind; [apply readonly_of_opt | intros mt].
+  destruct (negb mt); [apply IH|].
+  destruct (Nat.ltb _ _); [|apply IH].
+  apply readonly_bind; [apply readonly_of_opt | intros e; apply readonly_ret].
+Qed.
+Lemma q_ro_eatl_go : forall index f q l count, readonly (q_eatl_go index f q l count).
+Proof.
+  intros index f q l. induction l as [|aid rest IH]; intros count; [apply readonly_fail | rewrite q_eatl_go_cons].
+  apply readonly_bind; [apply q_ro_getA | intros a].
+  destruct (negb (filter_matches f (a_mask a))); [apply IH|].
+  destruct (negb (arch_has_rels a)).
+  - destruct (a_tables a) as [|t0 ?]; [apply readonly_fail|].
+    apply readonly_bind; [apply readonly_getT | intros t].
+    destruct (Nat.ltb _ _); [apply readonly_of_opt | apply IH].
+  - apply readonly_bind; [apply readonly_of_opt | intros cand].
+    apply readonly_bind; [apply q_ro_eat_tables | intros r].
+    destruct r as [x|c]; [apply readonly_ret | apply IH].
+Qed.
 Theorem query_entity_at_readonly : forall qi i s, state_of (query_entity_at qi i s) = s.
 Proof.
   intros qi i. change (readonly (query_entity_at qi i)). rewrite q_entity_at_eq.
-  apply readonly_bind; [apply q_ro_walk | intros w; apply q_ro_eat_go].
+  apply readonly_bind; [apply q_ro_getQ | intros q].
+  apply readonly_bind; [apply readonly_get | intros s].
+  destruct (q_cache q).
+  - apply readonly_bind; [apply readonly_of_opt | intros e].
+    apply readonly_bind; [apply q_ro_eat_tables | intros r].
+    destruct r as [x|c]; [apply readonly_ret | apply readonly_fail].
+  - apply readonly_bind; [apply readonly_getF | intros f; apply q_ro_eatl_go].
 Qed.
 Theorem query_entity_readonly : forall d qi s, state_of (query_entity d qi s) = s.
 Proof.
@@ -525,6 +671,181 @@ Proof.
       * destruct IH as [-> IH]. split; [reflexivity|]. rewrite app_length. lia.
 Qed.
 
+(** *** The lazy walk of EntityAt agrees with "complete walk, then index" whenever the complete
+    walk succeeds; more generally it only depends on the prefix of the walk up to the index. *)
+Lemma q_bind_getT : forall B s tid t (k : table -> MW B),
+  nth_error (w_tables s) tid = Some t -> bind (getT tid) k s = k t s.
+Proof. intros B s tid t k H. unfold bind. rewrite (sa_getT_eq s tid t H). reflexivity. Qed.
+Lemma q_bind_getA : forall B s aid a (k : arch -> MW B),
+  nth_error (w_archs s) aid = Some a -> bind (getA aid) k s = k a s.
+Proof. intros B s aid a k H. unfold getA, bind, get, of_opt. rewrite H. reflexivity. Qed.
+Lemma q_bind_getQ : forall B s qi q (k : qobj -> MW B),
+  nth_error (w_queries s) qi = Some q -> bind (getQ qi) k s = k q s.
+Proof. intros B s qi q k H. unfold bind. rewrite (q_getQ_eq s qi q H). reflexivity. Qed.
+Lemma q_bind_getF : forall B s fi f (k : fobj -> MW B),
+  nth_error (w_filters s) fi = Some f -> bind (getF fi) k s = k f s.
+Proof. intros B s fi f k H. unfold bind. rewrite (q_getF_eq s fi f H). reflexivity. Qed.
+
+Lemma q_eat_part_app : forall index w1 w2 count s,
+  q_eat_part index (w1 ++ w2) count s =
+  (r <- q_eat_part index w1 count ;;
+   match r with inl x => ret (inl x) | inr c => q_eat_part index w2 c end) s.
+Proof.
+  intros index w1 w2. induction w1 as [|[tid len] rest IH]; intros count s; [reflexivity|].
+  cbn [app]. rewrite !q_eat_part_cons. destruct (Nat.ltb index (count + len)).
+  - unfold bind. destruct (getT tid s) as [t s1|e s1]; [|reflexivity].
+    destruct (nth_error (t_ents t) (index - count)); reflexivity.
+  - rewrite IH. reflexivity.
+Qed.
+Lemma q_eat_go_app : forall index w1 w2 count s,
+  q_eat_go index (w1 ++ w2) count s =
+  (r <- q_eat_part index w1 count ;;
+   match r with inl x => ret x | inr c => q_eat_go index w2 c end) s.
+Proof.
+  intros index w1 w2. induction w1 as [|[tid len] rest IH]; intros count s; [reflexivity|].
+  cbn [app]. rewrite q_eat_go_cons, q_eat_part_cons. destruct (Nat.ltb index (count + len)).
+  - unfold bind. destruct (getT tid s) as [t s1|e s1]; [|reflexivity].
+    destruct (nth_error (t_ents t) (index - count)); reflexivity.
+  - rewrite IH. reflexivity.
+Qed.
+Lemma q_eat_go_part : forall index w count s,
+  q_eat_go index w count s =
+  (r <- q_eat_part index w count ;; match r with inl x => ret x | inr _ => fail EIndex end) s.
+Proof.
+  intros index w count s. rewrite <- (app_nil_r w) at 1. rewrite q_eat_go_app.
+  unfold bind. destruct (q_eat_part index w count s) as [[x|c] s1|e s1]; reflexivity.
+Qed.
+
+(** The table loop: on the tables of one archetype (or of the cache entry) the lazy scan is the
+    partial eager scan of the (table, len) pairs that [count_tables] returns. *)
+Lemma q_eat_tables_tm : forall index s rels ne L acc l s',
+  q_tm_go s rels ne L acc = Ok l s' ->
+  exists l0, l = rev acc ++ l0 /\
+    forall count, entity_at_tables index rels ne L count s =
+      q_eat_part index (map (fun tid => (tid, match nth_error (w_tables s) tid with Some t => t_len t | None => 0 end)) l0) count s.
+Proof.
+  intros index s rels ne L. induction L as [|tid L IH]; intros acc l s' H.
+  - rewrite q_tm_go_nil in H. inversion H. exists []. rewrite app_nil_r. split; reflexivity.
+  - rewrite q_tm_go_cons in H. destruct (nth_error (w_tables s) tid) as [t|] eqn:Et; [|discriminate].
+    assert (Hskip : forall acc', q_tm_go s rels ne L acc' = Ok l s' ->
+              (forall count, entity_at_tables index rels ne (tid :: L) count s = entity_at_tables index rels ne L count s) ->
+              exists l0, l = rev acc' ++ l0 /\
+                forall count, entity_at_tables index rels ne (tid :: L) count s =
+                  q_eat_part index (map (fun tid => (tid, match nth_error (w_tables s) tid with Some t => t_len t | None => 0 end)) l0) count s).
+    { intros acc' H' Hs. destruct (IH acc' l s' H') as (l0 & -> & Hl0). exists l0. split; [reflexivity|].
+      intros count. rewrite Hs. apply Hl0. }
+    destruct (ne && Nat.eqb (t_len t) 0)%bool eqn:Ene.
+    + apply Hskip; [exact H|]. intros count. rewrite q_eat_tables_cons, (q_bind_getT _ s tid t _ Et), Ene. reflexivity.
+    + destruct (tbl_matches t rels) as [[|]|] eqn:Em; [| |discriminate].
+      * destruct (IH (tid :: acc) l s' H) as (l0 & -> & Hl0). exists (tid :: l0).
+        split; [cbn [rev]; rewrite <- app_assoc; reflexivity|].
+        intros count. rewrite q_eat_tables_cons, (q_bind_getT _ s tid t _ Et), Ene, Em.
+        cbn [map]. rewrite q_eat_part_cons, Et.
+        change (bind (of_opt (Some true) ENil) ?k s) with (k true s). cbv beta. cbn [negb].
+        destruct (Nat.ltb index (count + t_len t)).
+        -- rewrite (q_bind_getT _ s tid t _ Et). reflexivity.
+        -- apply Hl0.
+      * apply Hskip; [exact H|]. intros count. rewrite q_eat_tables_cons, (q_bind_getT _ s tid t _ Et), Ene, Em. reflexivity.
+Qed.
+Lemma q_eat_tables_count : forall index s rels ne L ts s',
+  count_tables s L rels ne = Ok ts s' ->
+  s' = s /\ forall count, entity_at_tables index rels ne L count s = q_eat_part index ts count s.
+Proof.
+  intros index s rels ne L ts s' H.
+  pose proof (q_ro_count_tables L rels ne s) as Hro. cbv beta in Hro. rewrite H in Hro. cbn [state_of] in Hro.
+  split; [exact Hro|].
+  unfold count_tables in H. rewrite q_tables_matching_eq in H.
+  destruct (q_tm_go s rels ne L []) as [l s1|] eqn:E; [|discriminate]. inversion H; subst.
+  destruct (q_eat_tables_tm index s rels ne L [] l s E) as (l0 & -> & Hl0). exact Hl0.
+Qed.
+
+(** The archetype loop: for a prefix [L1] of the archetype list whose complete walk succeeds,
+    the lazy walk over [L1 ++ L2] is the partial eager scan of the walk of [L1], continued lazily
+    on [L2] - whatever [L2] contains. *)
+Lemma q_eatl_go_app : forall index f q L1 L2 acc s w s',
+  q_walk_go f q L1 acc s = Ok w s' ->
+  s' = s /\ exists w0, w = acc ++ w0 /\
+    forall count, q_eatl_go index f q (L1 ++ L2) count s =
+      (r <- q_eat_part index w0 count ;;
+       match r with inl x => ret x | inr c => q_eatl_go index f q L2 c end) s.
+Proof.
+  intros index f q L1 L2. induction L1 as [|aid L IH]; intros acc s w s' H.
+  - rewrite q_walk_go_nil in H. inversion H. split; [reflexivity|]. exists []. rewrite app_nil_r. split; reflexivity.
+  - rewrite q_walk_go_cons in H. apply q_bind_inv in H. destruct H as (a & s1 & Ha & H).
+    apply q_getA_inv in Ha. destruct Ha as [-> Ea].
+    assert (Hstep : forall count, q_eatl_go index f q ((aid :: L) ++ L2) count s =
+              (if negb (filter_matches f (a_mask a)) then q_eatl_go index f q (L ++ L2) count
+               else if negb (arch_has_rels a) then
+                 match a_tables a with
+                 | t0 :: _ =>
+                     t <- getT t0 ;;
+                     if Nat.ltb index (count + t_len t) then of_opt (nth_error (t_ents t) (index - count)) EIndex
+                     else q_eatl_go index f q (L ++ L2) (count + t_len t)
+                 | [] => fail EIndex
+                 end
+               else
+                 cand <- of_opt (arch_get_tables a (q_rels q)) EIndex ;;
+                 r <- entity_at_tables index (q_rels q) false cand count ;;
+                 match r with inl x => ret x | inr c => q_eatl_go index f q (L ++ L2) c end) s).
+    { intros count. cbn [app]. rewrite q_eatl_go_cons. rewrite (q_bind_getA _ s aid a _ Ea). reflexivity. }
+    destruct (negb (filter_matches f (a_mask a))).
+    { destruct (IH acc s w s' H) as (-> & w0 & -> & Hw0). split; [reflexivity|]. exists w0. split; [reflexivity|].
+      intros count. rewrite Hstep. apply Hw0. }
+    destruct (negb (arch_has_rels a)).
+    + destruct (a_tables a) as [|t0 ?]; [discriminate|].
+      apply q_bind_inv in H. destruct H as (t & s1 & Ht & H).
+      apply q_getT_inv in Ht. destruct Ht as [-> Et].
+      destruct (IH _ s w s' H) as (-> & w0 & -> & Hw0). split; [reflexivity|].
+      exists ((t0, t_len t) :: w0). split; [rewrite <- app_assoc; reflexivity|].
+      intros count. rewrite Hstep, (q_bind_getT _ s t0 t _ Et), q_eat_part_cons.
+      destruct (Nat.ltb index (count + t_len t)).
+      * unfold bind. rewrite (sa_getT_eq s t0 t Et).
+        destruct (nth_error (t_ents t) (index - count)); reflexivity.
+      * apply Hw0.
+    + apply q_bind_inv in H. destruct H as (cand & s1 & Hc & H).
+      apply q_of_opt_inv in Hc. destruct Hc as [-> Ec].
+      apply q_bind_inv in H. destruct H as (ts & s1 & Hts & H).
+      destruct (q_eat_tables_count index s (q_rels q) false cand ts s1 Hts) as [-> Hts'].
+      destruct (IH _ s w s' H) as (-> & w0 & -> & Hw0). split; [reflexivity|].
+      exists (ts ++ w0). split; [rewrite <- app_assoc; reflexivity|].
+      intros count. rewrite Hstep, Ec.
+      change (bind (of_opt (Some cand) EIndex) ?k s) with (k cand s). cbv beta.
+      unfold bind at 1. rewrite Hts'. unfold bind at 1. rewrite q_eat_part_app. unfold bind at 1.
+      pose proof (q_ro_eat_part index ts count s) as Hro.
+      destruct (q_eat_part index ts count s) as [[x|c] s2|e s2]; cbn [state_of] in Hro; subst s2; [reflexivity| |reflexivity].
+      rewrite Hw0. reflexivity.
+Qed.
+
+Lemma q_eatl_go_walk : forall index f q L s w s',
+  q_walk_go f q L [] s = Ok w s' ->
+  q_eatl_go index f q L 0 s = q_eat_go index w 0 s.
+Proof.
+  intros index f q L s w s' H.
+  destruct (q_eatl_go_app index f q L [] [] s w s' H) as (-> & w0 & -> & Hw0).
+  cbn [app]. rewrite <- (app_nil_r L) at 1. rewrite Hw0, q_eat_go_part.
+  unfold bind. destruct (q_eat_part index w0 0 s) as [[x|c] s1|e s1]; reflexivity.
+Qed.
+
+(** EntityAt (lazy) = index into the complete walk, whenever the complete walk succeeds. *)
+Theorem query_entity_at_walk : forall qi i s w s',
+  query_walk qi s = Ok w s' -> query_entity_at qi i s = q_eat_go i w 0 s.
+Proof.
+  intros qi i s w s' H. rewrite q_walk_eq in H. rewrite q_entity_at_eq.
+  apply q_bind_inv in H. destruct H as (q & s1 & Hq & H).
+  apply q_getQ_inv in Hq. destruct Hq as [-> Eq].
+  rewrite (q_bind_getQ _ s qi q _ Eq). rewrite q_bind_get in H. rewrite q_bind_get.
+  destruct (q_cache q) as [addr|].
+  - apply q_bind_inv in H. destruct H as (e & s1 & He & H).
+    apply q_of_opt_inv in He. destruct He as [-> Ee]. rewrite Ee.
+    change (bind (of_opt (Some e) EIndex) ?k s) with (k e s). cbv beta.
+    destruct (q_eat_tables_count i s (q_rels q) true (ce_tables e) w s' H) as [-> Hw].
+    rewrite q_eat_go_part. unfold bind. rewrite Hw. reflexivity.
+  - apply q_bind_inv in H. destruct H as (f & s1 & Hf & H).
+    apply q_getF_inv in Hf. destruct Hf as [-> Ef].
+    rewrite (q_bind_getF _ s (q_filter q) f _ Ef).
+    apply (q_eatl_go_walk i f q _ s w s' H).
+Qed.
+
 Theorem query_entity_at_spec : forall qi s w i,
   query_walk qi s = Ok w s ->
   (forall p, In p w -> exists t, nth_error (w_tables s) (fst p) = Some t /\ snd p = t_len t /\ t_len t <= length (t_ents t)) ->
@@ -533,11 +854,62 @@ Theorem query_entity_at_spec : forall qi s w i,
   | Err _ s' => s' = s /\ length (walk_rows s w) <= i
   end.
 Proof.
-  intros qi s w i Hw Hp. rewrite q_entity_at_eq. unfold bind. rewrite Hw.
+  intros qi s w i Hw Hp. rewrite (query_entity_at_walk qi i s w s Hw).
   pose proof (q_eat_go_spec s i w 0 Hp (Nat.le_0_l i)) as H.
   destruct (q_eat_go i w 0 s) as [e s'|e s'].
   - rewrite Nat.sub_0_r in H. exact H.
   - rewrite Nat.add_0_r in H. exact H.
+Qed.
+
+(** *** EntityAt is lazy: it succeeds on every index covered by a prefix of the archetype list whose
+    walk succeeds, WHATEVER the rest of the list contains - in particular when a later archetype or
+    table makes the complete walk (and hence Count) panic. This is the behaviour of
+    entityAt / entityAtCache in query_count.go, which return as soon as the index is reached. *)
+Theorem query_entity_at_lazy_succeeds : forall qi s q f L1 L2 w1 i,
+  nth_error (w_queries s) qi = Some q -> q_cache q = None ->
+  nth_error (w_filters s) (q_filter q) = Some f ->
+  query_archetypes s q = L1 ++ L2 ->
+  q_walk_go f q L1 [] s = Ok w1 s ->
+  (forall p, In p w1 -> exists t, nth_error (w_tables s) (fst p) = Some t /\ snd p = t_len t /\ t_len t <= length (t_ents t)) ->
+  i < length (walk_rows s w1) ->
+  exists e, query_entity_at qi i s = Ok e s /\ nth_error (walk_rows s w1) i = Some e.
+Proof.
+  intros qi s q f L1 L2 w1 i Hq Hc Hf HL Hw Hp Hi.
+  rewrite q_entity_at_eq, (q_bind_getQ _ s qi q _ Hq), q_bind_get, Hc, (q_bind_getF _ s (q_filter q) f _ Hf), HL.
+  destruct (q_eatl_go_app i f q L1 L2 [] s w1 s Hw) as (_ & w0 & Hw0eq & Hw0).
+  cbn [app] in Hw0eq. subst w0. rewrite Hw0.
+  pose proof (q_eat_go_spec s i w1 0 Hp (Nat.le_0_l i)) as Hs. rewrite q_eat_go_part in Hs.
+  unfold bind in Hs |- *.
+  destruct (q_eat_part i w1 0 s) as [[x|c] s1|e s1]; cbn in Hs.
+  - destruct Hs as [-> Hs]. rewrite Nat.sub_0_r in Hs. exists x. split; [reflexivity | exact Hs].
+  - destruct Hs as [_ Hs]. lia.
+  - destruct Hs as [_ Hs]. lia.
+Qed.
+
+(** A reachable state showing it: entity 2 in the zero archetype, entity 3 in archetype {1,2}
+    (both relation components, target entity 2), entity 4 in archetype {1}; an unsafe filter
+    without ids; a query with the per-query relations (1 -> 2), (2 -> 2). The table of archetype
+    {1} lacks component 2, so Matches panics there: Count fails (nil dereference), while
+    EntityAt 0 and EntityAt 1 - found before that table is reached - succeed; EntityAt 2 reaches
+    the table and fails like Count. *)
+Definition q_lazy_cfg : script_cfg :=
+  {| sc_cap := 2; sc_caprel := 1; sc_bits := 256; sc_debug := false; sc_kinds := map kind_of_code [0; 7; 8]%Z |}.
+Definition q_lazy_world : W :=
+  Common.exec q_lazy_cfg
+    [ [0]; [2; 2; 1; 2; 2; 1; 0; 2; 0]; [2; 1; 1; 1; 1; 0];
+      [15; 1; 0; 0; 0; 0]; [19; 0; 2; 1; 0; 2; 0] ]%Z.
+Example query_entity_at_lazy_example :
+  query_count 0 q_lazy_world = Err ENil q_lazy_world /\
+  query_entity_at 0 0 q_lazy_world = Ok (2, 0%N) q_lazy_world /\
+  query_entity_at 0 1 q_lazy_world = Ok (3, 0%N) q_lazy_world /\
+  query_entity_at 0 2 q_lazy_world = Err ENil q_lazy_world.
+Proof. vm_compute. repeat split; reflexivity. Qed.
+
+Corollary query_entity_at_lazy_witness :
+  exists s qi e er, query_count qi s = Err er s /\ query_entity_at qi 0 s = Ok e s.
+Proof.
+  exists q_lazy_world, 0, (2, 0%N), ENil.
+  destruct query_entity_at_lazy_example as (H1 & H2 & _). split; assumption.
 Qed.
 
 (** ** The cursor visits exactly the walked rows, in order (uncached and cached queries).
@@ -585,31 +957,6 @@ Lemma q_updf_upd : forall A (f : A -> A) (l : list A) i x, i < length l -> updf 
 Proof.
   intros A f l i x H. unfold updf. rewrite sa_nth_error_upd_eq by exact H. apply q_upd_upd.
 Qed.
-
-(** *** Monadic inversion helpers *)
-Lemma q_getQ_eq : forall s qi q, nth_error (w_queries s) qi = Some q -> getQ qi s = Ok q s.
-Proof. intros s qi q H. unfold getQ, bind, get, of_opt. rewrite H. reflexivity. Qed.
-Lemma q_bind_ret : forall A B (a : A) (k : A -> MW B) s, bind (ret a) k s = k a s.
-Proof. reflexivity. Qed.
-Lemma q_bind_get : forall B (k : W -> MW B) s, bind get k s = k s s.
-Proof. reflexivity. Qed.
-Lemma q_bind_fail : forall A B e (k : A -> MW B) s, bind (fail e) k s = Err e s.
-Proof. reflexivity. Qed.
-Lemma q_bind_inv : forall A B (m : MW A) (k : A -> MW B) s b s',
-  bind m k s = Ok b s' -> exists a s1, m s = Ok a s1 /\ k a s1 = Ok b s'.
-Proof. intros A B m k s b s' H. unfold bind in H. destruct (m s) as [a s1|]; [eauto | discriminate]. Qed.
-Lemma q_getA_inv : forall i s a s1, getA i s = Ok a s1 -> s1 = s /\ nth_error (w_archs s) i = Some a.
-Proof. intros i s a s1 H. unfold getA, bind, get, of_opt in H. destruct (nth_error (w_archs s) i); inversion H; auto. Qed.
-Lemma q_getT_inv : forall i s a s1, getT i s = Ok a s1 -> s1 = s /\ nth_error (w_tables s) i = Some a.
-Proof. intros i s a s1 H. unfold getT, bind, get, of_opt in H. destruct (nth_error (w_tables s) i); inversion H; auto. Qed.
-Lemma q_getF_inv : forall i s a s1, getF i s = Ok a s1 -> s1 = s /\ nth_error (w_filters s) i = Some a.
-Proof. intros i s a s1 H. unfold getF, bind, get, of_opt in H. destruct (nth_error (w_filters s) i); inversion H; auto. Qed.
-Lemma q_getQ_inv : forall i s a s1, getQ i s = Ok a s1 -> s1 = s /\ nth_error (w_queries s) i = Some a.
-Proof. intros i s a s1 H. unfold getQ, bind, get, of_opt in H. destruct (nth_error (w_queries s) i); inversion H; auto. Qed.
-Lemma q_of_opt_inv : forall A (o : option A) e (s : W) a s1, of_opt o e s = Ok a s1 -> s1 = s /\ o = Some a.
-Proof. intros A o e s a s1 H. destruct o; inversion H; auto. Qed.
-Lemma q_getF_eq : forall s i f, nth_error (w_filters s) i = Some f -> getF i s = Ok f s.
-Proof. intros s i f H. unfold getF, bind, get, of_opt. rewrite H. reflexivity. Qed.
 
 (** *** The rows a cursor still has to visit, as pure functions of the tables/archetypes *)
 Fixpoint q_trows (T : list table) (rels : list rel) (L : list nat) : option (list ent) :=
